@@ -197,7 +197,7 @@ def rand_case(rng):
 
 
 def gen(ctx):
-    cs = table() + pv.cross_kind_cases()
+    cs = table() + pv.cross_kind_cases() + pv.back_to_back_cases()
     n = 600 if ctx.tier == "quick" else 12000
     cs += [rand_case(ctx.rng) for _ in range(n)]
     return cs
@@ -214,7 +214,7 @@ def oracle(case, out):
     """C03 stated directly on what the real node did."""
     if not isinstance(out, dict) or "results" not in out:
         return [("harness", "no result: %r" % (out,))]
-    if case.get("schedule") is not None:
+    if not pv.is_serial(case):
         return []
     v = []
     for i, (d, r) in enumerate(zip(case["deliveries"], out["results"])):
